@@ -269,7 +269,8 @@ def logit_tools(op):
             H = [[op.flt('mu') * (i == j) for j in range(n)] for i in range(n)]
             for row in Ad:
                 s = float(sum(a * Dc(b) for a, b in zip(row, x)))
-                w = 1 / (1 + math.exp(-s)); w = w * (1 - w)
+                e_ = math.exp(-abs(s)) if abs(s) < 700 else 0.0     # stable: σ(s)(1−σ(s)) = e^{−|s|}/(1+e^{−|s|})²
+                w = e_ / ((1 + e_) * (1 + e_))
                 for i in range(n):
                     for j in range(n):
                         H[i][j] += w * float(row[i]) * float(row[j])
